@@ -177,10 +177,56 @@ def extract_steal(ctx, sliced, fired):
     fired['steal'] = rw.fired
 
 
+def extract_relocate(ctx, sliced, fired):
+    """prepare_task_pool (growth / in-place compaction of the deque), allocate_task_pool, commit_relocated_tasks, commit_spawned_tasks, spawn"""
+    rw = Rewriter('relocate')
+    out = []
+    for name, sig, csig in (
+            ('allocate_task_pool', r'void allocate_task_pool\( std::size_t n \)', 'void slot_allocate_task_pool(struct aslot* self, size_t n)'),
+            ('commit_spawned_tasks', r'void commit_spawned_tasks\(std::size_t new_tail\)', 'void slot_commit_spawned_tasks(struct aslot* self, size_t new_tail)'),
+            ('commit_relocated_tasks', r'void commit_relocated_tasks\(std::size_t new_tail\)', 'void slot_commit_relocated_tasks(struct aslot* self, size_t new_tail)'),
+            ('prepare_task_pool', r'std::size_t prepare_task_pool\(std::size_t num_tasks\)', 'size_t slot_prepare_task_pool(struct aslot* self, size_t num_tasks)'),
+            ('spawn', r'void spawn\(d1::task& t\)', 'void slot_spawn(struct aslot* self, task* t)')):
+        s = slice_block(ASH, sig)
+        sliced.append('%s:%d arena_slot::%s' % (ASH, s.line, name))
+        t = rw.sub(s.text, sig, csig, 1, 1, name='sig')
+        t = rw.sub(t, r'\(d1::task\*\*\)cache_aligned_allocate\(byte_size\)', 'STUB_cache_aligned_allocate(byte_size)', 0, None, name='callee stub (allocation)')
+        t = rw.sub(t, r'cache_aligned_deallocate\( new_task_pool \);', 'STUB_cache_aligned_deallocate(new_task_pool);', 0, None, name='callee stub (deallocation)')
+        t = rw.sub(t, r'fill_with_canary_pattern\([^;]*\);', 'RG_NOP();', 0, None, name='canary fill (no-op in release builds) -> RG_NOP')
+        t = rw.sub(t, r'__TBB_ASSERT\(is_poisoned\(task_pool_ptr\[T\]\), nullptr\);', 'RG_NOP();', 0, None, name='poison check (debug only) -> RG_NOP')
+        t = rw.sub(t, r'__TBB_ASSERT\(\s*!is_task_pool_published\(\) && is_quiescent_local_task_pool_reset\(\), nullptr\);', 'VERIF_ASSERT(!slot_is_task_pool_published(self) && self->head == 0 && self->tail == 0, "first allocation happens on an unpublished, reset pool");', 0, None, name='debug helper inlined')
+        t = rw.sub(t, r'__TBB_ASSERT\(is_local_task_pool_quiescent\(\), "[^"]*"\);', 'VERIF_ASSERT(slot_is_local_task_pool_quiescent(self), "Task pool must be locked when calling commit_relocated_tasks()");', 0, None, name='debug helper')
+        t = rw.sub(t, r'= &t;', '= t;', 0, None, name='ref-param')
+        t = rw.sub(t, r'\bnew_task_pool\[([^\]]*)\]', r'POOL_RD(new_task_pool, \1)', 0, None, name='pool element read -> POOL_RD')
+        t = rw.sub(t, r'(?<![\w.>])task_pool_ptr\[([^\]]*)\] = ([^;]*);', r'POOL_WR(self->task_pool_ptr, \1, \2);', 0, None, name='pool element write -> POOL_WR')
+        t = rw.sub(t, r'(?<![\w.>])(tail|head)\.load\([^)]*\)', r'ATOMIC_LOAD(self->\1)', 0, None, name='atomic-load')
+        t = rw.sub(t, r'(?<![\w.>])(tail|head)\.store\(([^;]*?), std::memory_order_\w+\);', r'ATOMIC_STORE(self->\1, \2);', 0, None, name='atomic-store')
+        t = rw.sub(t, r'fill_with_canary_pattern\( T1, tail \);', 'RG_NOP();', 0, None, name='canary fill')
+        t = rw.sub(t, r'(?<![\w.>])(my_task_pool_size|task_pool_ptr)\b', r'self->\1', 0, None, name='field')
+        t = rw.sub(t, r'(?<![\w.>])min_task_pool_size\b', 'MIN_TASK_POOL_SIZE', 0, None, name='class constant')
+        t = rw.sub(t, r'(?<![\w.>])(acquire_task_pool|release_task_pool|publish_task_pool|allocate_task_pool|commit_relocated_tasks|commit_spawned_tasks|prepare_task_pool|is_task_pool_published)\(', r'slot_\1(self, ', 0, None, name='method')
+        t = rw.sub(t, r'\(self, \)', '(self)', 0, None, name='method (no args)')
+        t = rw.sub(t, r'd1::task\*\*', 'task**', 0, None, name='ns-strip')
+        t = rw.sub(t, r'd1::task\*', 'task*', 0, None, name='ns-strip')
+        t = rw.asserts(t, 0)
+        t = rw.std(t)
+        t = tag_loops(t, name, rw)
+        out.append(t)
+    m = re.search(r'static constexpr std::size_t min_task_pool_size = (\d+);', load(ASH))
+    if not m:
+        raise ExtractionBreak('arena_slot.h: min_task_pool_size not found')
+    m2 = re.search(r'const std::size_t max_nfs_size = (\d+);', load('include/oneapi/tbb/detail/_utils.h')) or re.search(r'max_nfs_size = (\d+)', load('include/oneapi/tbb/detail/_utils.h'))
+    if not m2:
+        raise ExtractionBreak('max_nfs_size not found')
+    common.write(ctx, 'relocate.inc', '#define MIN_TASK_POOL_SIZE ((size_t)%s)\n#define max_nfs_size ((size_t)%s)\n' % (m.group(1), m2.group(1)) + '\n'.join(out) + '\n')
+    fired['relocate'] = rw.fired
+
+
 def build(ctx):
     sliced, fired = extract(ctx)
     extract_locks(ctx, sliced, fired)
     extract_steal(ctx, sliced, fired)
+    extract_relocate(ctx, sliced, fired)
     C = os.path.join(HERE, 'c01.c')
     n = 5 if ctx.tier == 'quick' else 7
     jobs = [
@@ -193,6 +239,8 @@ def build(ctx):
         Job('pool.get_task.any_size', C, 'h_get_task_lc', route='LC', loops=True, nloops=1, defines=['GTLC'], target='arena_slot::get_task + get_task_impl + reset_task_pool_and_leave (owner side, any pool size)', source=ASC, timeout=900),
         Job('the.owner', C, 'h_the_owner', route='RG', loops=True, nloops=1, defines=['THE_OWNER'], target='arena_slot::get_task (+ get_task_impl, reset_task_pool_and_leave) against any number of thieves: arbitration for one arbitrary slot', source=ASC, timeout=900),
         Job('the.thief', C, 'h_the_thief', route='RG', loops=True, nloops=1, defines=['THE_THIEF'], target='arena_slot::steal_task against the owner and other thieves: arbitration for one arbitrary slot', source=ASC, timeout=900),
+        Job('pool.prepare_task_pool', C, 'h_prepare', route='LC', loops=True, nloops=2, defines=['RELOC'], target='arena_slot::prepare_task_pool + allocate_task_pool + commit_relocated_tasks (any pool size and content)', source=ASH, timeout=900),
+        Job('pool.spawn', C, 'h_spawn', route='LC', loops=True, nloops=2, defines=['RELOC'], target='arena_slot::spawn + commit_spawned_tasks (+ prepare_task_pool)', source=ASH, timeout=900),
         Job('pool.steal_task', C, 'h_steal', route='LC', loops=True, nloops=1, defines=['STEAL'], target='arena_slot::steal_task (thief side, any pool size)', source=ASC, timeout=600),
         Job('proxy.extract', C, 'h_extract', route='RG', defines=['PROXY'], target='task_proxy::extract_task<pool_bit|mailbox_bit> (two-sided claim)', source=MB),
     ]
